@@ -2,7 +2,7 @@
 From Coq Require Import NArith List Bool Arith.
 From QV.Base Require Import Res.
 From QV.Gen Require Import Consts.
-From QV.Tree Require Import TreeModel TreeLlrb QTree TreeSpec QTreeProofs.
+From QV.Tree Require Import TreeModel TreeLlrb QTree TreeSpec QTreeProofs TreeIter.
 Import ListNotations.
 
 Theorem C02_variant : LLRB234 = true.
@@ -22,6 +22,11 @@ Definition LLRB (s : tbl) : Prop := llrb node (ncmp kcmp) (root s).
 Theorem C02_invariant : forall os, forallb is_map_op os = true ->
   exists s obs, run kcmp init os = Ok (s, obs) /\ LLRB s /\ check_model (root s) = 0.
 Proof. intros os H. destruct (run_map_refines kcmp kcmp_trans kcmp_antisym kcmp_eq_l os init false (Inv_init kcmp) H) as (s & obs & d & E & HI & _).
+  exists s, obs. split; [exact E|]. split; [apply HI|]. apply (inv_check kcmp). exact HI. Qed.
+(* ... and for histories with walks and nearest-key searches interleaved *)
+Theorem C02_invariant_any_history : forall os,
+  exists s obs, run kcmp init os = Ok (s, obs) /\ LLRB s /\ check_model (root s) = 0.
+Proof. intros os. destruct (run_init_refines kcmp kcmp_trans kcmp_antisym kcmp_eq_l os) as (s & obs & d & E & HI & _).
   exists s, obs. split; [exact E|]. split; [apply HI|]. apply (inv_check kcmp). exact HI. Qed.
 (* single operations from any valid tree: result is Ok (no crash, fuel suffices) and valid again *)
 Theorem C02_put_step : forall t n, llrb node (ncmp kcmp) t -> exists t', tput (ncmp kcmp) nrepl t n = Ok t' /\ llrb node (ncmp kcmp) t'.
@@ -45,6 +50,7 @@ Example C02_ex : exists s obs, run byte_cmp init [Put [3%N] [1%N]; Put [1%N] [1%
 Proof. vm_compute. eexists; eexists; repeat split. Qed.
 
 Print Assumptions C02_invariant.
+Print Assumptions C02_invariant_any_history.
 Print Assumptions C02_put_step.
 Print Assumptions C02_remove_step.
 Print Assumptions C02_lookup_cost.
